@@ -401,8 +401,25 @@ pub fn native_json(n: u8) -> Value {
         7 => json!("borrowed \u{2603}"),
         8 => json!(["x", 3]),
         9 => json!({"k": [1, 2]}),
+        // a value that reads mutable state when it is serialised: it was LIVE_AT_SET when handed to set_claim
+        12 => json!(LIVE_AT_SET),
         // 0.1f32: serialised with the shortest f32 representation, i.e. the JSON number 0.1
         _ => serde_json::from_str("0.1").unwrap(),
+    }
+}
+
+/// Native value #12 serialises whatever this thread-local holds *at the moment it is serialised*. The adapter
+/// sets it to LIVE_AT_SET, hands the claim to the builder and overwrites it with LIVE_AFTER straight away:
+/// "the claims given to the builder" are the values as they were when they were given.
+pub const LIVE_AT_SET: u64 = 4242;
+pub const LIVE_AFTER: u64 = 999_999_999;
+thread_local! {
+    static LIVE: std::cell::Cell<u64> = const { std::cell::Cell::new(LIVE_AFTER) };
+}
+pub struct LiveValue;
+impl serde::Serialize for LiveValue {
+    fn serialize<S: serde::Serializer>(&self, serializer: S) -> Result<S::Ok, S::Error> {
+        serializer.serialize_u64(LIVE.with(|l| l.get()))
     }
 }
 
@@ -497,6 +514,12 @@ pub fn put_claim<'a, S: ClaimSink<'a>>(sink: &mut S, spec: &'a ClaimSpec) -> Res
                     let mut m = std::collections::BTreeMap::new();
                     m.insert("k", vec![1, 2]);
                     sink.put(CustomClaim::try_from((key, m)).map_err(ctor_err)?)
+                }
+                12 => {
+                    LIVE.with(|l| l.set(LIVE_AT_SET));
+                    let r = CustomClaim::try_from((key, LiveValue)).map_err(ctor_err).map(|c| sink.put(c));
+                    LIVE.with(|l| l.set(LIVE_AFTER));
+                    r?
                 }
                 _ => sink.put(CustomClaim::try_from((key, 0.1f32)).map_err(ctor_err)?),
             }
